@@ -19,7 +19,9 @@ def run(rep):
                          "against C git upload-pack / receive-pack, C git fetching from the files dulwich wrote, and TCPGitServer on the "
                          "loopback interface with C git and TCPGitClient fetching and pushing; afterwards every object of closure(wants) is "
                          "in the receiver byte for byte, nothing outside closure(wants) (tags of transferred objects aside) arrived, "
-                         "git fsck --connectivity-only passes.  distinct non-trivial = queries and transfers")
+                         "git fsck --connectivity-only passes.  Depth-limited receivers: a depth 1..3 fetch of one head followed by an ordinary fetch of "
+                         "other heads, through C git upload-pack and LocalGitClient; after each step everything reachable from the fetched heads "
+                         "down to the receiver's shallow boundary is present, byte for byte, and git fsck passes.  distinct non-trivial = queries and transfers")
     rep.trusted += ["C git 2.39.5 upload-pack / receive-pack / fetch / push / fsck as peer and oracle", "loopback TCP inside the sandbox"]
     impl = Impl(PROP, case_timeout=900)
     model = Model(PROP)
@@ -70,6 +72,28 @@ def run(rep):
         if r["fsck"] != 0:
             rep.fail("receiver-broken:" + q["mode"], "git fsck --connectivity-only on the receiver: %s" % r["fsck"], case)
     rep.extra["transfers_by_mode"] = outcomes
+    # depth-limited receivers
+    reqs = []
+    for mode in ("git-upload-pack", "local-fetch"):
+        for k in range(10 if not thorough else 120):
+            reqs.append({"fn": "shallow_transfer", "seed": rng.randrange(1 << 30), "n": rng.choice([4, 8, 14]), "mode": mode, "pack_sender": rng.random() < 0.5})
+    sh = {"ok": 0, "refused": 0, "with_boundary": 0}
+    for q, r in zip(reqs, impl.run(reqs)):
+        case = {k: q[k] for k in ("seed", "n", "mode", "pack_sender")}
+        case["shallow"] = True
+        rep.case("shallow-transfer:" + q["mode"], key=repr(case), nontrivial=True, outcome=str(r.get("result"))[:40], sample=case)
+        for st in r.get("steps", []):
+            if st["missing"]:
+                rep.fail("transfer-incomplete:shallow:" + q["mode"], "after the %s fetch of a depth-limited receiver objects %s are missing above its shallow boundary" % (st["step"], st["missing"]), case)
+            if st["fsck"] != 0:
+                rep.fail("receiver-broken:shallow:" + q["mode"], "git fsck --connectivity-only after the %s fetch: %s" % (st["step"], st["fsck"]), case)
+            if st["shallow"]:
+                sh["with_boundary"] += 1
+        if r.get("result") == "ok":
+            sh["ok"] += 1
+        else:
+            sh["refused"] += 1      # a fetch that fails is no transfer; counted, and the steps before it were audited
+    rep.extra["shallow_transfers"] = sh
 
 
 def replay(rep, body):
